@@ -7,14 +7,14 @@ def run(i):
     d = os.path.join(S, i)
     meta = json.load(open(os.path.join(d, "meta.json")))
     prop = meta["property"]
-    out = subprocess.run(["python3", "/verif/tools/eval_mutant.py", prop, os.path.join(d, "patch.diff"), "--keep-evidence"], stdout=subprocess.PIPE, stderr=subprocess.STDOUT).stdout.decode()
+    out = subprocess.run(["python3", "/verif/tools/eval_mutant.py", prop, os.path.join(d, "patch.diff")], stdout=subprocess.PIPE, stderr=subprocess.STDOUT).stdout.decode()
     lines = [l for l in out.splitlines() if not l.startswith("WARNING")]
     verdict = lines[0].split()[0] if lines else "?"
     detail = [l.strip() for l in lines[1:]]
     return i, verdict, detail
-# sequential: the checks share /verif/build and /verif/evidence
-for i in ids:
-    i, v, det = run(i)
+# parallel: every run writes its build / evidence output into its own scratch tree
+def done(res):
+    i, v, det = res
     d = os.path.join(S, i)
     meta = json.load(open(os.path.join(d, "meta.json")))
     cr = meta.setdefault("check_result", {})
@@ -22,5 +22,7 @@ for i in ids:
     cr["lines"] = det[:6]
     cr["command"] = "tools/eval_mutant.py %s seeded/%s/patch.diff" % (meta["property"], i)
     json.dump(meta, open(os.path.join(d, "meta.json"), "w"), indent=1)
-    print(i, v, (det[0][:200] if det else ""))
-pass  # evidence / build output of the mutated run went to the scratch directory (VERIF_EVIDENCE_DIR / VERIF_BUILD_DIR)
+    print(i, v, (det[0][:200] if det else ""), flush=True)
+with cf.ThreadPoolExecutor(max_workers=int(os.environ.get("EVAL_JOBS", "3"))) as ex:
+    for res in ex.map(run, ids):
+        done(res)
